@@ -132,10 +132,9 @@ def awaiting_only(prog, rep, tag):
     ok = into == [("FrameElement::claim_receiving", "cas", "Sent", "RxBusy")] and not [p_ for p_ in problems if "claim_receiving" in p_[0].root_short]
     rep.ob(P, "rxbusy-only-from-sent" + tag, ok, "the receive side can enter a slot only by compare-exchange Sent -> RxBusy (transitions into RxBusy: %s)" % into, how="table")
     lk = prog.body("PduStorageRef::frame_index_by_first_pdu_index")
-    somes = q.aggregates(lk, "Option", "Some")
+    somes = slotfsm.lookup_match_sites(prog)
     aware = bool(somes)
-    for bi, si, s in somes:
-        implied = q.implied_true_calls(lk, bi)
+    for body_, implied in somes:
         a = False
         for c in implied:
             t = prog.by_path.get(c.full)
